@@ -293,7 +293,12 @@ class Port_Matcher
 
         bool hard_match(int i, const char *msg)
         {
-            if(strncmp(msg, fixed[i].c_str(), fixed[i].length()))
+            const std::string &key = fixed[i];
+            if(strncmp(msg, key.c_str(), key.length()))
+                return false;
+            //like rtosc_match(): the address ends where the name ends,
+            //only a name with a trailing '/' accepts a longer address
+            if(msg[key.length()] && (key.empty() || key.back() != '/'))
                 return false;
             if(arg_spec[i])
                 return rtosc_match_args(arg_spec[i], msg);
